@@ -11,7 +11,9 @@ flock 8
 export FC_REPO_LOCK_HELD=1
 if [ -n "$(git -C /repo status --porcelain --untracked-files=no)" ]; then echo "/repo not clean"; exit 2; fi
 git -C /repo apply "$patch" || { echo "patch does not apply"; exit 2; }
-trap 'git -C /repo checkout -- . ; git -C /repo clean -fdq src tests ; echo "[reverted]"' EXIT
+# after the revert the generated C18 table is regenerated from the restored source (a C18 run on the
+# modified tree leaves a table of that tree behind)
+trap 'git -C /repo checkout -- . ; git -C /repo clean -fdq src tests ; case " $* " in *" C18 "*) python3 tools/c18_runner.py --translate-only >/dev/null 2>&1;; esac; echo "[reverted]"' EXIT
 for p in "$@"; do
   echo "=== $p"
   ./check "$p" --tier quick 2>&1 | tail -4
